@@ -15,7 +15,7 @@
    checked dynamically by the race detector on every run.  The closure footprint `fp` is extracted from the
    source with go/ast on every run (Facts_C20.v) and `footprint_race_free fp = true` re-proved there. *)
 From Coq Require Import List Arith Bool.
-From IocVerif Require Import Model.SyncMap Proofs.SyncMapProofs.
+From IocVerif Require Import Model.SyncMap Proofs.SyncMapProofs Model.Conc Proofs.RaceProofs.
 Import ListNotations.
 
 (* ---------- atomicity of the containers ---------------------------------------------------------------- *)
@@ -93,6 +93,39 @@ Proof.
   split; [exact Hrun|]. split; [vm_compute; auto 20|exact range_not_linearizable].
 Qed.
 
+(* ---------- data races of the two concurrent phases --------------------------------------------------- *)
+
+(* `phase_prog fp n passes fails`: main runs `passes` rounds (the loop over the definition scanners; 1 for
+   Close) of  <accesses before the loop>; wg.Add n; go x n; <accesses between go and Wait>; wg.Wait;
+   <accesses after>,  goroutine t runs the closure's accesses (under the locks the footprint records; the
+   accesses on the failure path only when `fails t`) and then wg.Done.  For every footprint that passes the
+   boolean side condition, every number of components, every number of rounds, every failing subset and
+   every interleaving: no two conflicting plain accesses of different threads are unordered by
+   happens-before. *)
+Theorem c20_race_free : forall fp,
+  footprint_race_free fp = true ->
+  forall n passes fails c tr, reach (phase_prog fp n passes fails) c tr -> ~ race tr.
+Proof. intros fp Hfp n passes fails. exact (phase_race_free fp n passes fails Hfp). Qed.
+
+(* the same for explicit schedules *)
+Theorem c20_race_free_all_schedules : forall fp,
+  footprint_race_free fp = true ->
+  forall n passes fails sched c tr, run (init (phase_prog fp n passes fails)) sched = Some (c, tr) -> ~ race tr.
+Proof.
+  intros fp Hfp n passes fails sched c tr Hrun. apply (c20_race_free fp Hfp n passes fails c tr).
+  apply (Proofs.ConcProofs.run_reach _ sched (init (phase_prog fp n passes fails)) [] c tr); [constructor|assumption].
+Qed.
+
+(* D-C20b: the footprint of the unrepaired scanning closure (errs = append(errs, ...) without a lock) fails the
+   side condition, and its phase program has an interleaving with a data race as soon as two scanners fail *)
+Theorem c20_unlocked_append_refuted :
+  footprint_race_free fp_unlocked = false
+  /\ exists sched c tr, run (init (phase_prog fp_unlocked 2 1 (fun _ => true))) sched = Some (c, tr) /\ race tr.
+Proof.
+  split; [vm_compute; reflexivity|]. destruct unlocked_run as [c Hrun].
+  exists unlocked_sched, c, unlocked_trace. split; [exact Hrun|exact unlocked_race].
+Qed.
+
 (* non-vacuity *)
 Example c20_example_lin :
   let progs := fun t => match t with 0 => [OLoadOrStoreFn 0 1; OLoad 0] | 1 => [OLoadOrStoreFn 0 2; ODelete 0] | _ => [] end in
@@ -108,4 +141,19 @@ Example c20_example_refuted_history :
   hist losf_trace = [(0, EInv (OLoadOrStoreFn 0 1)); (1, EInv (OLoadOrStoreFn 0 2));
                      (0, ERes (OLoadOrStoreFn 0 1) (RLos 1 false)); (1, ERes (OLoadOrStoreFn 0 2) (RLos 2 false))]
   /\ linearizable_b [mkOp 0 (OLoadOrStoreFn 0 1) (RLos 1 false) 0 2; mkOp 1 (OLoadOrStoreFn 0 2) (RLos 2 false) 1 3] = false.
+Proof. vm_compute. split; reflexivity. Qed.
+
+(* the footprint of the repaired scanning closure (errs under mutex 3) satisfies the side condition; the
+   executable race detector finds nothing on a run with two failing scanners and two rounds *)
+Example c20_example_race_free :
+  let fp := mkFp true true true
+              [mkCvar 1 false [(false, 3, true); (true, 3, true)] [true] [] [false; false];   (* errs *)
+               mkCvar 2 false [(false, 0, false)] [true] [] [false];                          (* processor *)
+               mkCvar 3 true [] [true] [] []; mkCvar 4 true [] [true] [] []] in               (* mu, wg *)
+  footprint_race_free fp = true
+  /\ match run (init (phase_prog fp 2 2 (fun _ => true)))
+              [0;0;0;0;0;1;1;1;2;2;2;1;1;1;2;2;2;1;2;1;2;1;2;1;2;1;2;0;0;0;0;0;0;0;0;0;3;3;3;4;4;4;3;3;3;4;4;4;3;4;3;4;3;4;3;4;3;4;0;0;0;0] with
+     | Some (c, tr) => (races_b tr, length tr)
+     | None => ([(0, 0)], 0)
+     end = ([], 62).
 Proof. vm_compute. split; reflexivity. Qed.
